@@ -49,6 +49,9 @@ Check (C09_get_coherent : forall parse_obj member s r s' v,
 
 Check (C09_byte_len_fits : forall n, n < 2 ^ 64 -> n < 256 ^ byte_len n /\ byte_len n <= 8 /\ 1 <= byte_len n).
 
+Check (C09_byte_len_boundaries : forallb (fun k => (byte_len (256 ^ k - 1) =? k) && (byte_len (256 ^ k) =? k + 1) && (byte_len (256 ^ k + 1) =? k + 1))
+          [1; 2; 3; 4; 5; 6; 7] = true /\ byte_len 0 = 1 /\ byte_len 1 = 1 /\ byte_len (2 ^ 64 - 1) = 8).
+
 Check (C09_xref_roundtrip : forall es aw bw data,
   table_in_range es -> write_stream es (lenN es) = Ok (aw, bw, data) ->
   read_section 0 (lenN es) 1 aw bw data = Ok ((0, es), []) /\ aw <= 8 /\ bw <= 8 /\ lenN data = lenN es * (1 + aw + bw)).
